@@ -13,7 +13,7 @@ struct Ser : Opm::Serializer<Opm::Serialization::MemPacker> {
 };
 
 template <class T, class Make, class Eq>
-Trip trip(const T& src, std::unique_ptr<T>& dst, Make make, Eq eq) {
+Trip trip(const T& src, std::unique_ptr<T>& dst, Make make, Eq eq, T* inplace = nullptr) {
     Trip t;
     Opm::Serialization::MemPacker packer;
     Ser ser(packer);
@@ -23,6 +23,10 @@ Trip trip(const T& src, std::unique_ptr<T>& dst, Make make, Eq eq) {
     ser.unpack(*dst);
     t.consumed = ser.position();
     t.equal = eq(*dst, src);
+    // Some classes serialise lazily filled caches (e.g. SummaryState::well_names, filled by wells(), which operator== calls): the
+    // packed length of one and the same object changes when it is *queried*.  The replica is therefore compared with the
+    // original packed again at the same moment, after both went through the same queries.
+    { Ser ser1(packer); ser1.pack(src); t.packed_now = ser1.buf().size(); }
     // second generation: pack the replica, unpack it again
     Ser ser2(packer);
     ser2.pack(*dst);
@@ -30,6 +34,8 @@ Trip trip(const T& src, std::unique_ptr<T>& dst, Make make, Eq eq) {
     auto third = make();
     ser2.unpack(*third);
     t.repack_equal_after_unpack = eq(*third, *dst) && ser2.position() == ser2.buf().size();
+    // the way a checkpoint is loaded in production: the packed bytes are unpacked *into the live object*
+    if (inplace) ser.unpack(*inplace);
     return t;
 }
 struct StdEq { template <class T> bool operator()(const T& a, const T& b) const { return a == b; } };
@@ -118,8 +124,8 @@ std::vector<char> pack_schedule(const Opm::Schedule& s) {
     Opm::Serialization::MemPacker packer; Ser ser(packer); ser.pack(s); return ser.buf();
 }
 
-Trip trip_schedule(const Opm::Schedule& src, std::unique_ptr<Opm::Schedule>& dst, std::shared_ptr<Opm::Python> python) {
-    return trip(src, dst, [&] { return std::make_unique<Opm::Schedule>(python); }, StdEq{});
+Trip trip_schedule(const Opm::Schedule& src, std::unique_ptr<Opm::Schedule>& dst, std::shared_ptr<Opm::Python> python, Opm::Schedule* inplace) {
+    return trip(src, dst, [&] { return std::make_unique<Opm::Schedule>(python); }, StdEq{}, inplace);
 }
 Trip trip_eclipse_state(const Opm::EclipseState& src, std::unique_ptr<Opm::EclipseState>& dst) {
     return trip(src, dst, [] { return std::make_unique<Opm::EclipseState>(); }, EsEq{});
